@@ -71,7 +71,17 @@ class Machine(Interp):
                 r = C({'and': x[1] & y[1], 'or': x[1] | y[1], 'xor': x[1] ^ y[1]}[op])
             else:
                 dx, dy = st.dom(x), st.dom(y)
-                if dx.lo >= 0 and dy.lo >= 0:
+                masked = None
+                if op == 'and':
+                    for p_, q_ in ((x, y), (y, x)):
+                        if is_const(q_) and q_[1] > 0 and (q_[1] & (q_[1] + 1)) == 0 and not is_const(p_):
+                            dp = st.dom(p_)
+                            # x & (2^m - 1) with 0 <= x <= 2^m - 1 (by interval or by the path's linear facts) is x
+                            if dp.lo >= 0 and (dp.hi <= q_[1] or (p_[0] in ('add', 'sub', 'mul') and st.prove_le(p_, q_))):
+                                masked = p_
+                if masked is not None:
+                    r = masked
+                elif dx.lo >= 0 and dy.lo >= 0:
                     n = ty.size
                     from .terms import bitop_byte
                     bxs, bys = self.st_bytes(st, x, n), self.st_bytes(st, y, n)
